@@ -494,7 +494,9 @@ Section Diff.
              end) (sync_value lels rels) acc.
 
   (* the zip_longest loop of _diff_arrays_of_scalars (a private marker object
-     is the fill value).  parentref/iteration use idx AFTER `idx += 1`. *)
+     is the fill value).  parentref is the element's own index (`idx - 1` after
+     `idx += 1`); the lhs_/rhs_iteration keywords (sort hints, not modelled) still
+     use the incremented idx. *)
   Fixpoint zip_go (rec : rec_t) (deep : bool) (path : string) (ploc : loc) (r : node)
            (idx : nat) (lels rels : list node) (acc : list entry) {struct lels} : outcome (list entry) :=
     match lels with
@@ -509,7 +511,7 @@ Section Diff.
         | re :: rr =>
             do a <- (if deep then
                        rec (path_add_idx path (Some idx)) (ploc ++ [RIdx idx]) le re (Some r)
-                           (PInt (Z.of_nat (S idx))) acc
+                           (PInt (Z.of_nat idx)) acc
                      else Ok (cmp_entry (path_add_idx path (Some idx)) (ploc ++ [RIdx idx]) le re :: acc));
             zip_go rec deep path ploc r (S idx) lr rr a
         end
